@@ -976,7 +976,7 @@ func (c *Client) dialAndConnect(config *Config) (net.Conn, *bufio.Reader, error)
 	// — MQTT Version 3.1.1, conformance statement MQTT-3.1.0-1
 
 	// Don't make Close wait on a slow connect.
-	done := make(chan struct{})
+	done := make(chan struct{}, 1) // buffered: the routine below may be gone already
 	defer close(done)
 	abort := make(chan error, 1)
 	go func() {
